@@ -18,7 +18,7 @@ from ..interp import Frame, Interp, Phi, Ref, Tup, vtext
 from ..nf import NF
 from ..nfdomain import NFDomain
 from ..paths import enumerate_paths, path_calls
-from ..program import AnalysisError, Program, bind_args, unparse, short, walk_no_nested, increment_of
+from ..program import AnalysisError, Program, bind_args, unparse, short, walk_no_nested, increment_of, xunparse, single_defs
 from ..report import Report
 from .. import roms
 
@@ -254,18 +254,14 @@ def file_selection(prog: Program, rep: Report) -> None:
     op = prog.role_func("forcing", "open_forcing_file")
     ts = [p for p in op.params if p != "self"][0]
     ident = None
-    nc_ok = False
+    odefs = single_defs(op.node)
     for node in walk_no_nested(op.node):
         if isinstance(node, ast.Assign) and len(node.targets) == 1 and isinstance(node.targets[0], ast.Attribute):
             tgt = unparse(node.targets[0])
-            if unparse(node.value) == f"self.file_idx[{ts}]":
+            if xunparse(node.value, op.node, odefs) == f"self.file_idx[{ts}]" and tgt != "self._nc":
                 ident = tgt
-            if tgt == "self._nc":
-                nc_ok = True
-        if isinstance(node, ast.Assign) and isinstance(node.value, ast.Call) and unparse(node.value.func) == "Dataset":
-            nc_ok = nc_ok or unparse(node.value.args[0]) == f"self.file_idx[{ts}]"
     opened = [n for n in walk_no_nested(op.node) if isinstance(n, ast.Call) and unparse(n.func) == "Dataset"]
-    rep.check(rule, op.qual, "opens Dataset(self.file_idx[step])", len(opened) == 1 and unparse(opened[0].args[0]) == f"self.file_idx[{ts}]", what_bad=f"the file opened must be the one holding the requested step: {[short(n) for n in opened]}", what_ok="file of the requested step", loc=op.loc())
+    rep.check(rule, op.qual, "opens Dataset(self.file_idx[step])", len(opened) == 1 and xunparse(opened[0].args[0], op.node, odefs) == f"self.file_idx[{ts}]", what_bad=f"the file opened must be the one holding the requested step: {[short(n) for n in opened]}", what_ok="file of the requested step", loc=op.loc())
     rep.check(rule, op.qual, "records which file is open", ident is not None, what_bad="no attribute records the identity of the open file (self.file_idx[step]); a later request cannot tell whether the right file is open", what_ok=f"{ident} = self.file_idx[{ts}]", loc=op.loc())
 
     def selects(fi, step_param: str, upto: Optional[ast.AST] = None, depth: int = 2) -> list[tuple[bool, str]]:
@@ -282,7 +278,7 @@ def file_selection(prog: Program, rep: Report) -> None:
                     conds_true.append((unparse(node), s[2]))
                     # identity comparison
                     if ident and isinstance(node, ast.Compare) and len(node.ops) == 1:
-                        l, r = unparse(node.left), unparse(node.comparators[0])
+                        l, r = xunparse(node.left, fi.node), xunparse(node.comparators[0], fi.node)
                         pair = {l, r}
                         if pair == {f"self.file_idx[{step_param}]", ident}:
                             eq = isinstance(node.ops[0], ast.Eq)
